@@ -412,7 +412,19 @@ def tail(rng, sh, extra_obs, first=False, force=None, base_obs=()):
     seqs = [s for s, v in sh.S.items() if v["pos"] and s in sh.ok["S"]]
     els = [e for e, v in sh.E.items() if v["chans"] and e in sh.ok["E"]]
     bps = [b for b, v in sh.B.items() if v["names"]]
+    synced = [0]
+
+    def sync():
+        # what the calls appended so far did to rates and contents is visible to the next call's choice of values (a
+        # duration chosen for a channel must be chosen at the rate the channel has NOW); only ops whose replay on the
+        # shape is idempotent - the kinds that insert / remove segments keep the shape up to date themselves
+        for op in ops[synced[0]:]:
+            if op[0] in ("BSetSR", "SSetSR", "EAddBp", "SAddElement", "SAddSub", "ECopy", "SCopy", "BChangeDur", "SSetAmp"):
+                sh.apply(op)
+        synced[0] = len(ops)
+
     for _i in range(rng.randint(1, 3)):
+        sync()
         kinds = []
         if seqs:
             kinds += [x for x in SEQ_KINDS if x != "valid_handle"]
@@ -802,6 +814,7 @@ def tail(rng, sh, extra_obs, first=False, force=None, base_obs=()):
             else:
                 ops.append(("BRemove", r, nm))
                 sh.apply(ops[-1])
+    sync()
     return ops
 
 
